@@ -117,7 +117,8 @@ def finding_classes(d: Any) -> set[str]:
 
 
 def build_cases(ctx: Ctx, n_random: int, sizes: list[int], with_corpus: bool, multi_start: bool = False,
-                k: int = 2, f_adjacent: bool = False, bunched: bool = False) -> list[dict[str, Any]]:
+                k: int = 2, f_adjacent: bool = False, bunched: bool = False,
+                loops_on_exits: bool = False) -> list[dict[str, Any]]:
     """definitions with their complete job sets (loops 1..k), as Lean's `runs` enumerates them"""
     r = ctx.rng
     defs: list[dict[str, Any]] = []
@@ -127,11 +128,22 @@ def build_cases(ctx: Ctx, n_random: int, sizes: list[int], with_corpus: bool, mu
         defs.append({"kind": "loop_tail", "blk": d})
     for d in pvlib.enumerate_terminal_forks():
         defs.append({"kind": "terminal_fork", "blk": d})
+    for d in pvlib.enumerate_break_forks():
+        defs.append({"kind": "break_fork", "blk": d})
     if bunched:
         # forks opened directly under one another (outside F's grammar: a branch that begins with a fork; the corpus has
         # a handful of them): every clause of C01, C02 and C05 holds on the unchanged tree for these 64
         for d in pvlib.enumerate_bunched():
             defs.append({"kind": "f_adjacent_bunched", "blk": d})
+        # 36 more: staged re-joins with a bare loop as one branch (a loop node that the walk creates more than once);
+        # every clause of C01, C02 and C05 holds on the unchanged tree for all of them (hash seeds 0-4)
+        for d in pvlib.enumerate_staged_loop_rejoins():
+            defs.append({"kind": "f_adjacent_staged_loop", "blk": d})
+    if loops_on_exits:
+        # C07 only: a loop downstream of another loop's exit, under two namings (the nesting is acyclic, complete and
+        # non-overlapping on the unchanged tree for all 16)
+        for d in pvlib.enumerate_loops_on_exits():
+            defs.append({"kind": "f_adjacent_loops_on_exits", "blk": d})
     if f_adjacent:
         # outside F (C01/C02 do not quantify over them: with nothing after the outer loop the exit is unobservable and
         # the learner is not sound there); C05's clauses are stated for every emitted file
